@@ -250,13 +250,30 @@ def special_spec(vc, v):
     return Not(SBool(z3.InRe(v.t, z3.Star(ok))))
 
 
-@scenario("cookies._has_special", functions=[CK + ":_has_special"], max_unroll=6)
+HS_UNROLL = 6
+
+
+def special_spec_bounded(vc, v, n):
+    """special_spec for strings of at most n characters, character by character (cookie-octet ranges as code points)"""
+    if vc.mode == "native":
+        return special_spec(vc, v)
+    import z3
+    from pyvc.core import scode
+    bad = []
+    for i in range(n):
+        c = scode(v.t, z3.IntVal(i))
+        bad.append(z3.And(z3.Length(v.t) > i, z3.Or(c < 0x21, c > 0x7E, c == 0x22, c == 0x2C, c == 0x3B, c == 0x5C)))
+    return SBool(z3.Or(*bad))
+
+
+@scenario("cookies._has_special", functions=[CK + ":_has_special"], max_unroll=HS_UNROLL)
 def s_has_special(vc):
     v = vc.sym_str("v")
     out = vc.call(CK + ":_has_special", v)
     vc.ensure("no_exception", out.ok)
     if out.ok:
-        vc.ensure("iff_not_all_cookie_octets", Iff(out.result, special_spec(vc, v)))
+        # (complete paths have len(v) <= HS_UNROLL or found a special character among the first HS_UNROLL ones)
+        vc.ensure("iff_not_all_cookie_octets", Iff(out.result, special_spec_bounded(vc, v, HS_UNROLL)))
 
 
 @scenario("cookies._read_until", functions=[CK + ":_read_until", CK + ":_read_key"], max_unroll=6)
@@ -308,3 +325,487 @@ def s_format_pairs(vc):
         item = ks[i] if unary[i] else ks[i] + "=" + quote_spec(vc, vs[i])
         exp = item if i == 0 else exp + "; " + item
     vc.ensure("pairs_joined_by_semicolon_space", out.result == exp)
+
+
+def no_leading_space(vc, s):
+    if vc.mode == "native":
+        return s == "" or not s[0].isspace()
+    from pyvc.libx_httpmodel import str_starts_with_space
+    return Not(SBool(str_starts_with_space(s.t)))
+
+
+PARSE_UNROLL = 5
+
+
+@scenario("cookies.parse_bare_pair", functions=[CK + ":_read_cookie_pairs", CK + ":_read_key", CK + ":_read_value", CK + ":_read_until", CK + ":parse_cookie_header"],
+          max_unroll=PARSE_UNROLL, lstrip_facts=True, z3_timeout_ms=1500)
+def s_parse_bare(vc):
+    """parse_cookie_header(name "=" value) == [[name, value]] for a representable name (non-empty, no '=' or ';', no leading whitespace)
+    and a bare value (cookie-octets written without quotes: no ';', not starting with '"'); strings as long as the unrolling reaches"""
+    name, value = vc.sym_str("name"), vc.sym_str("value")
+    vc.assume(And(len_(name) > 0, Not(contains(name, "=")), Not(contains(name, ";")), no_leading_space(vc, name)))
+    vc.assume(And(Not(contains(value, ";")), Not(startswith(value, '"'))))
+    out = vc.call(CK + ":parse_cookie_header", name + "=" + value)
+    vc.ensure("no_exception", out.ok)
+    if not out.ok:
+        return
+    got = items_of(out.result)
+    vc.ensure("one_pair", len(got) == 1)
+    if len(got) == 1:
+        vc.ensure("name", items_of(got[0])[0] == name)
+        vc.ensure("value", items_of(got[0])[1] == value)
+
+
+# =================================================================================================================
+# T2 (bounded): real Request/Response objects; every view: assign -> read back, write-back of the current value on
+# enumerated existing messages, and edits through the view against a list model
+
+STRS = ["", "a", "B", "a b", "a=b", "a&b", "a;b", "a,b", "a\"b", "a\\b", "a\r\nb", "\x00", "é", "\udcff", "a+b", "%41", "a%", " a", "a ", "#?/", "\"", "\"q\"", "=", ";", "日本"]
+BYTES = [b"", b"a", b"a b", b"v1\r\nv2", b"v1\nv2", b"a\"b", b"\x00\xff", b"--", b"a\r\n", b"\r\na", b"=&;", b"\xc3\xa9", b"x" * 70]
+
+
+def _mkreq(path="/p?old=1", headers=(), content=b""):
+    from mitmproxy.http import Request, Headers
+    return Request("example.com", 80, b"POST", b"http", b"", path.encode("utf-8", "surrogateescape"), b"HTTP/1.1", Headers(list(headers)), content, None, 0.0, 0.0)
+
+
+def _mkresp(headers=()):
+    from mitmproxy.http import Response, Headers
+    return Response(b"HTTP/1.1", 200, b"OK", Headers(list(headers)), b"", None, 0.0, 0.0)
+
+
+def _pairs(x):
+    return [tuple(p) for p in x]
+
+
+def _lists(alpha, maxlen, tier, seed, cap):
+    """all pair lists of length <= maxlen over alpha x alpha (sub-sampled deterministically beyond `cap`)"""
+    import itertools, random
+    singles = list(itertools.product(alpha, repeat=2))
+    out = [[]] + [[p] for p in singles]
+    if maxlen >= 2:
+        small = alpha[:8] if tier == "quick" else alpha[:12]
+        sp = list(itertools.product(small, repeat=2))
+        two = [[a, b] for a in sp for b in sp]
+        random.Random(seed).shuffle(two)
+        out += two[:cap]
+    if maxlen >= 3:
+        rnd = random.Random(seed + 1)
+        out += [[rnd.choice(singles) for _ in range(3)] for _ in range(cap)]
+    return out
+
+
+def ref_form_decode(q: str):
+    """application/x-www-form-urlencoded parser written from WHATWG URL §5.1: split on '&', then at the first '=', '+' -> SP, percent-decode, UTF-8"""
+    out = []
+    if q == "":
+        return out
+    for part in q.split("&"):
+        if part == "":
+            continue
+        k, _, v = part.partition("=")
+        out.append((_pct(k.replace("+", " ")), _pct(v.replace("+", " "))))
+    return out
+
+
+def _pct(s: str) -> str:
+    b = bytearray()
+    raw = s.encode("utf-8", "surrogateescape")
+    i = 0
+    hexd = b"0123456789abcdefABCDEF"
+    while i < len(raw):
+        if raw[i] == 0x25 and i + 2 < len(raw) + 0 and i + 2 <= len(raw) - 1 + 0 and raw[i + 1] in hexd and raw[i + 2] in hexd:
+            b.append(int(raw[i + 1:i + 3], 16))
+            i += 3
+        else:
+            b.append(raw[i])
+            i += 1
+    return b.decode("utf-8", "surrogateescape")
+
+
+def cookie_name_ok(k, v):
+    """RFC 6265: the name must not contain '=' or ';' and cannot start with whitespace (it is trimmed); a pair needs a name or a value"""
+    return "=" not in k and ";" not in k and (k == "" or not k[0].isspace()) and (k != "" or v != "")
+
+
+def _check_roundtrip(b, check, inp, assign, read, expect):
+    try:
+        assign()
+        got = read()
+    except Exception as e:
+        b.fail(check, inp, f"raised {type(e).__name__}: {e}")
+        return False
+    if got != expect:
+        b.fail(check, inp, f"read back {got!r}, assigned {expect!r}")
+        return False
+    return True
+
+
+def _t2_query_and_form(b, tier, seed):
+    lists = _lists(STRS, 2 if tier == "quick" else 3, tier, seed, 1500 if tier == "quick" else 20000)
+    for pl in lists:
+        inp = {"pairs": repr(pl)}
+        b.case(("query", repr(pl)), nontrivial=bool(pl))
+        r = _mkreq("/p;x?old=1#frag")
+        ok = _check_roundtrip(b, "query.roundtrip", inp, lambda: setattr(r, "query", pl), lambda: _pairs(r.query.items(multi=True)), _pairs(pl))
+        if ok:
+            # the rest of the target is untouched and the wire text decodes to the same pairs under the reference reader
+            path = r.path
+            q = path[len("/p;x"):-len("#frag")]
+            if not path.startswith("/p;x") or not path.endswith("#frag") or r.data.path.decode("ascii", "replace") != path or (q != "" and not q.startswith("?")):
+                b.fail("query.frame", inp, f"path became {path!r}")
+            elif ref_form_decode(q[1:]) != _pairs(pl):
+                b.fail("query.wire_means_the_pairs", inp, f"{path!r} decodes (reference) to {ref_form_decode(q[1:])!r}")
+        b.case(("form", repr(pl)), nontrivial=bool(pl))
+        r = _mkreq(headers=[(b"content-type", b"text/plain")], content=b"old")
+        # (the previous body 'old' is in the "key without '='" style, which the encoder imitates: an all-empty pair cannot be written in that style)
+        ok = _check_roundtrip(b, "urlencoded_form.roundtrip" + ("[empty-pair]" if ("", "") in pl else ""), dict(inp, **({"class": "empty-pair"} if ("", "") in pl else {})), lambda: setattr(r, "urlencoded_form", pl), lambda: _pairs(r.urlencoded_form.items(multi=True)), _pairs(pl))
+        if ok and (r.headers["content-type"] != "application/x-www-form-urlencoded" or ref_form_decode(r.content.decode("ascii")) != _pairs(pl)):
+            b.fail("urlencoded_form.wire_means_the_pairs", inp, f"{r.content!r} / {r.headers['content-type']!r}")
+
+
+def _t2_cookies(b, tier, seed):
+    lists = _lists(STRS, 2 if tier == "quick" else 3, tier, seed, 1500 if tier == "quick" else 20000)
+    for pl in lists:
+        if not all(cookie_name_ok(k, v) for k, v in pl):
+            continue
+        inp = {"pairs": repr(pl)}
+        b.case(("cookies", repr(pl)), nontrivial=bool(pl))
+        r = _mkreq(headers=[(b"Accept", b"*/*"), (b"Cookie", b"old=1"), (b"X", b"y"), (b"cookie", b"old2=2")])
+        ok = _check_roundtrip(b, "cookies.roundtrip", inp, lambda: setattr(r, "cookies", pl), lambda: _pairs(r.cookies.items(multi=True)), _pairs(pl))
+        if ok:
+            others = [f for f in r.headers.fields if f[0].lower() != b"cookie"]
+            cookies = [f for f in r.headers.fields if f[0].lower() == b"cookie"]
+            if others != [(b"Accept", b"*/*"), (b"X", b"y")] or len(cookies) != (1 if pl else 1):
+                b.fail("cookies.frame", inp, f"{r.headers.fields!r}")
+
+
+def _attr_ok(k, v):
+    if k == "" or any(c in k for c in "=;,") or k[0].isspace():
+        return False
+    if v is None:
+        return True
+    if k.lower() in ("expires", "path"):
+        return not any(c in v for c in ";") and (k.lower() != "expires" or len(v) > 3) and not v.startswith('"')
+    return True
+
+
+def _t2_response_cookies(b, tier, seed):
+    import itertools
+    from mitmproxy.coretypes.multidict import MultiDict
+    names = ["a", "A", "SID", "a b"] + (["_x-1", "日"] if tier == "thorough" else [])
+    values = STRS if tier == "thorough" else STRS[:16]
+    attr_sets = [[], [("Path", "/")], [("HttpOnly", None)], [("Expires", "Thu, 01 Jan 2037 00:00:00 GMT"), ("Secure", None)], [("Max-Age", "10"), ("Path", "/a b")],
+                 [("Domain", "example.com"), ("SameSite", "Lax")], [("x", "a;b")], [("x", "a,b")], [("Path", "/a,b")], [("Comment", "a\"b")]]
+    for name, value, attrs in itertools.product(names, values, attr_sets):
+        if not cookie_name_ok(name, value) or "," in name or not all(_attr_ok(k, v) for k, v in attrs):
+            continue
+        comma_in_bare_attr = any(v is not None and k.lower() in ("expires", "path") and "," in v and k.lower() == "path" for k, v in attrs)
+        inp = {"cookie": repr((name, value, attrs)), "class": "comma-in-path" if comma_in_bare_attr else "plain"}
+        b.case(("set-cookie", name, value, repr(attrs)), nontrivial=True)
+        r = _mkresp([(b"Set-Cookie", b"old=1"), (b"X", b"y")])
+        exp = [(name, (value, [tuple(a) for a in attrs]))]
+        check = "response_cookies.roundtrip" + ("[comma-in-path]" if comma_in_bare_attr else "")
+        _check_roundtrip(b, check, inp, lambda: setattr(r, "cookies", [(name, (value, MultiDict(attrs)))]),
+                         lambda: [(k, (v[0], list(v[1].fields))) for k, v in r.cookies.items(multi=True)], exp)
+    # two cookies: one header each, order kept
+    for (n1, v1), (n2, v2) in itertools.product([("a", "1"), ("b", "x y"), ("a", "")], repeat=2):
+        r = _mkresp()
+        pl = [(n1, (v1, MultiDict([("Path", "/")]))), (n2, (v2, MultiDict([])))]
+        b.case(("set-cookie2", n1, v1, n2, v2), nontrivial=True)
+        _check_roundtrip(b, "response_cookies.roundtrip", {"cookies": repr(pl)}, lambda: setattr(r, "cookies", pl),
+                         lambda: [(k, (v[0], list(v[1].fields))) for k, v in r.cookies.items(multi=True)], [(n1, (v1, [("Path", "/")])), (n2, (v2, []))])
+        if len(r.headers.get_all("set-cookie")) != 2:
+            b.fail("response_cookies.one_header_per_cookie", {"cookies": repr(pl)}, repr(r.headers.fields))
+
+
+def multipart_name_ok(k: bytes):
+    return k != b"" and not any(c in k for c in b'"\r\n')
+
+
+def _mp_class(k, v):
+    if b'"' in k:
+        return "quote-in-name"
+    if b"\r" in v or b"\n" in v:
+        return "linebreak-in-value"
+    return "plain"
+
+
+def ref_multipart(boundary: bytes, body: bytes):
+    """RFC 2046 §5.1.1 reader: parts are delimited by CRLF "--" boundary; a part is header lines, an empty line, then the content (the CRLF
+    before the next delimiter belongs to the delimiter). Returns [(name, content)] with name taken from Content-Disposition."""
+    import re
+    out = []
+    data = b"\r\n" + body
+    segs = data.split(b"\r\n--" + boundary)
+    for seg in segs[1:]:
+        if seg.startswith(b"--"):
+            break
+        seg = seg.split(b"\r\n", 1)[1] if b"\r\n" in seg else b""      # rest of the delimiter line (transport padding)
+        head, sep, content = seg.partition(b"\r\n\r\n")
+        if not sep and seg.startswith(b"\r\n"):
+            head, content = b"", seg[2:]
+        m = re.search(rb'name="((?:[^"\\\\]|\\\\.)*)"', head)
+        out.append((m.group(1) if m else None, content))
+    return out
+
+
+def _t2_multipart(b, tier, seed):
+    import itertools
+    keys = [b"k", b"a b", b"file.txt", b"\xc3\xa9", b"a;b=c", b'a"b']
+    pls = [[(k, v)] for k in keys for v in BYTES]
+    small = list(itertools.product([b"k", b"j"], [b"", b"v", b"a b", b"v1\r\nv2"]))
+    pls += [[a, c] for a in small for c in small]
+    if tier == "thorough":
+        pls += [[a, c, d] for a in small for c in small for d in small[:3]]
+    for pl in pls:
+        classes = sorted({_mp_class(k, v) for k, v in pl} - {"plain"})
+        inp = {"parts": repr(pl), "class": "+".join(classes) or "plain"}
+        check = "multipart.roundtrip" + (f"[{inp['class']}]" if classes else "")
+        b.case(("multipart", repr(pl)), nontrivial=True)
+        for ct in (None, b"multipart/form-data; boundary=XyZ"):
+            r = _mkreq(headers=[(b"content-type", ct)] if ct else [], content=b"old")
+            _check_roundtrip(b, check, dict(inp, content_type=repr(ct)), lambda: setattr(r, "multipart_form", pl), lambda: _pairs(r.multipart_form.items(multi=True)), _pairs(pl))
+            if not classes and r.content is not None and b"boundary=" in r.headers.get("content-type", "").encode():
+                # what an RFC 2046 reader (server) sees in the body mitmproxy wrote
+                bnd = r.headers["content-type"].split("boundary=", 1)[1].encode()
+                seen = ref_multipart(bnd, r.content)
+                if seen != _pairs(pl):
+                    b.fail("multipart.wire_means_the_parts[rfc2046-reader]", dict(inp, content_type=repr(ct), **{"class": "rfc2046-reader"}), f"an RFC 2046 reader sees {seen!r} in {r.content!r}")
+
+
+def _t2_path_components(b, tier, seed):
+    import itertools
+    comps = ["a", "", "a b", "a/b", "%2F", "é", "\udcff", "..", ".", "a?b", "a#b", "a;b", "%", "+", "\x00", "\r\n", "日本", "A"]
+    lists = [[]] + [[c] for c in comps] + [list(t) for t in itertools.product(comps, repeat=2)]
+    if tier == "thorough":
+        lists += [list(t) for t in itertools.product(comps[:9], repeat=3)]
+    for cl in lists:
+        has_empty = "" in cl
+        inp = {"components": repr(cl), "class": "empty-component" if has_empty else "plain"}
+        b.case(("path", repr(cl)), nontrivial=bool(cl))
+        r = _mkreq("/old/path;p?q=1#f")
+        ok = _check_roundtrip(b, "path_components.roundtrip" + ("[empty-component]" if has_empty else ""), inp,
+                              lambda: setattr(r, "path_components", cl), lambda: list(r.path_components), list(cl))
+        if not r.path.endswith(";p?q=1#f"):
+            b.fail("path_components.frame", inp, f"path became {r.path!r}")
+
+
+def _t2_writeback(b, tier, seed):
+    """writing a view's current value back leaves the meaning (what the view and the reference reader see) and the rest of the message unchanged,
+    and is idempotent"""
+    targets = ["/p", "/p?", "/p?a=1", "/p?a=1&b=2&a=3", "/p?a", "/p?a=&b", "/p?=v", "/p?a=%41%20+b", "/p?a=1&&b=2", "/p;x=1?a=b#frag", "/p?a=b=c", "/p?%E9=%FF", "/p?a=1;b=2", "/?a=/&b=?"]
+    for t in targets:
+        r = _mkreq(t)
+        before = _pairs(r.query.items(multi=True))
+        inp = {"path": t}
+        b.case(("wb-query", t), nontrivial="?" in t)
+        q = t.split("?", 1)[1].split("#")[0] if "?" in t else ""
+        if before != ref_form_decode(q):
+            b.fail("query.read_matches_reference", inp, f"view {before!r}, reference {ref_form_decode(q)!r}")
+        r.query = r.query.items(multi=True)
+        after = _pairs(r.query.items(multi=True))
+        p1 = r.path
+        r.query = r.query.items(multi=True)
+        if after != before or r.path != p1 or r.path.split("?")[0] != t.split("?")[0].split("#")[0] or ("#frag" in t) != ("#frag" in r.path):
+            b.fail("query.writeback_keeps_meaning", inp, f"{t!r} -> {p1!r} -> {r.path!r}; pairs {before!r} -> {after!r}")
+    # (headers, pairs an RFC 6265 reader extracts; quoted values shown unquoted; None: reading-dependent whitespace handling)
+    cookie_headers = [([b"a=1"], [("a", "1")]), ([b"a=1; b=2"], [("a", "1"), ("b", "2")]), ([b"a=1;b=2"], [("a", "1"), ("b", "2")]),
+                      ([b"a=1", b"c=3"], [("a", "1"), ("c", "3")]), ([b"a=\"x y\"; b=\"q\\\"r\""], [("a", "x y"), ("b", "q\"r")]), ([b"a"], [("a", "")]),
+                      ([b"a=1; ; b=2"], [("a", "1"), ("b", "2")]), ([b"a=b=c"], [("a", "b=c")]), ([b" a=1;  b = 2 "], None), ([b"a=1; a=2"], [("a", "1"), ("a", "2")]),
+                      ([b"\xc3\xa9=\xff"], [("\u00e9", "\udcff")])]
+    for hs, expected in cookie_headers:
+        r = _mkreq(headers=[(b"X", b"1")] + [(b"Cookie", h) for h in hs] + [(b"Y", b"2")])
+        before = _pairs(r.cookies.items(multi=True))
+        inp = {"cookie_headers": repr(hs)}
+        b.case(("wb-cookies", repr(hs)), nontrivial=True)
+        if expected is not None and before != expected:
+            b.fail("cookies.read_matches_reference", inp, f"view {before!r}, expected {expected!r}")
+        r.cookies = r.cookies.items(multi=True)
+        after = _pairs(r.cookies.items(multi=True))
+        f1 = r.headers.fields
+        r.cookies = r.cookies.items(multi=True)
+        others = [f for f in r.headers.fields if f[0].lower() != b"cookie"]
+        if after != before or r.headers.fields != f1 or others != [(b"X", b"1"), (b"Y", b"2")]:
+            b.fail("cookies.writeback_keeps_meaning", inp, f"pairs {before!r} -> {after!r}; headers {r.headers.fields!r}")
+    bodies = [b"", b"a=1", b"a=1&b=2&a=3", b"a", b"a=%41+b", b"a=b=c", b"%E9=%FF", b"a=1&&b"]
+    for body in bodies:
+        r = _mkreq(headers=[(b"Content-Type", b"application/x-www-form-urlencoded; charset=utf-8")], content=body)
+        before = _pairs(r.urlencoded_form.items(multi=True))
+        inp = {"body": repr(body)}
+        b.case(("wb-form", body), nontrivial=bool(body))
+        if before != ref_form_decode(body.decode("ascii")):
+            b.fail("urlencoded_form.read_matches_reference", inp, f"view {before!r}, reference {ref_form_decode(body.decode('ascii'))!r}")
+        r.urlencoded_form = r.urlencoded_form.items(multi=True)
+        after = _pairs(r.urlencoded_form.items(multi=True))
+        c1 = r.content
+        r.urlencoded_form = r.urlencoded_form.items(multi=True)
+        if after != before or r.content != c1:
+            b.fail("urlencoded_form.writeback_keeps_meaning", inp, f"{body!r} -> {c1!r} -> {r.content!r}; pairs {before!r} -> {after!r}")
+    bnd = b"----WebKitFormBoundary7MA4YWxk"
+    def part(name, value, extra=b""):
+        return b"--" + bnd + b"\r\nContent-Disposition: form-data; name=\"" + name + b"\"" + extra + b"\r\n\r\n" + value + b"\r\n"
+    mp_bodies = [("plain", part(b"a", b"1") + part(b"b", b"x y") + b"--" + bnd + b"--\r\n"),
+                 ("plain", part(b"a", b"") + b"--" + bnd + b"--\r\n"),
+                 ("plain", part(b"f", b"data", b"; filename=\"x.txt\"\r\nContent-Type: text/plain") + b"--" + bnd + b"--\r\n"),
+                 ("linebreak-in-value", part(b"t", b"line1\r\nline2") + b"--" + bnd + b"--\r\n")]
+    for cls, body in mp_bodies:
+        r = _mkreq(headers=[(b"Content-Type", b"multipart/form-data; boundary=" + bnd)], content=body)
+        before = _pairs(r.multipart_form.items(multi=True))
+        inp = {"body": repr(body), "class": cls}
+        b.case(("wb-multipart", body), nontrivial=True)
+        exp = {0: [(b"a", b"1"), (b"b", b"x y")], 1: [(b"a", b"")], 2: [(b"f", b"data")], 3: [(b"t", b"line1\r\nline2")]}[mp_bodies.index((cls, body))]
+        suffix = f"[{cls}]" if cls != "plain" else ""
+        if before != exp:
+            b.fail("multipart.read_matches_reference" + suffix, inp, f"view {before!r}, sent {exp!r}")
+        r.multipart_form = r.multipart_form.items(multi=True)
+        after = _pairs(r.multipart_form.items(multi=True))
+        if after != before:
+            b.fail("multipart.writeback_keeps_meaning" + suffix, inp, f"pairs {before!r} -> {after!r}")
+    for t in ["/", "/a/b", "/a%20b/c%2Fd", "/a/b/", "/a//b", "//a", "/a/./b", "/%E9", "/a;p/b?q#f"]:
+        r = _mkreq(t)
+        inp = {"path": t, "class": "empty-component" if ("//" in t or (t.endswith("/") and t != "/")) else "plain"}
+        b.case(("wb-path", t), nontrivial=True)
+        r.path_components = r.path_components
+        new = r.path
+        suffix = "[empty-component]" if inp["class"] != "plain" else ""
+        if _pct_path(new) != _pct_path(t):
+            b.fail("path_components.writeback_keeps_meaning" + suffix, inp, f"{t!r} -> {new!r}")
+
+
+def _t2_writeback_object(b, tier, seed):
+    """the same with the view object itself (or a copy of it) as the assigned value: `r.query = r.query`"""
+    from mitmproxy.http import Headers
+    cases = [
+        ("query", lambda: _mkreq("/p?a=1&b=2&a=3")),
+        ("query", lambda: _mkreq("/p?ab=1")),
+        ("urlencoded_form", lambda: _mkreq(headers=[(b"Content-Type", b"application/x-www-form-urlencoded")], content=b"a=1&b=2&a=3")),
+        ("cookies", lambda: _mkreq(headers=[(b"Cookie", b"ab=1; cd=2; ab=3")])),
+        ("cookies", lambda: _mkreq(headers=[(b"Cookie", b"a=1")])),
+        ("multipart_form", lambda: _mkreq(headers=[(b"Content-Type", b"multipart/form-data; boundary=X")],
+                                          content=b'--X\r\nContent-Disposition: form-data; name="a"\r\n\r\n1\r\n--X\r\nContent-Disposition: form-data; name="a"\r\n\r\n2\r\n--X--\r\n')),
+        ("response.cookies", lambda: _mkresp([(b"Set-Cookie", b"a=1; Path=/"), (b"Set-Cookie", b"b=2")])),
+    ]
+    for view, mk in cases:
+        for form in ("view", "copy"):
+            m = mk()
+            attr = view.split(".")[-1]
+            before = [(k, repr(v)) for k, v in getattr(m, attr).items(multi=True)]
+            inp = {"view": view, "assigned": form, "before": repr(before), "class": "view-object"}
+            b.case(("wb-object", view, form, repr(before)), nontrivial=True)
+            try:
+                setattr(m, attr, getattr(m, attr) if form == "view" else getattr(m, attr).copy())
+                after = [(k, repr(v)) for k, v in getattr(m, attr).items(multi=True)]
+            except Exception as e:
+                b.fail("writeback_object[view-object]", inp, f"raised {type(e).__name__}: {e}")
+                continue
+            if after != before:
+                b.fail("writeback_object[view-object]", inp, f"pairs {before!r} -> {after!r}")
+
+
+def _pct_path(p):
+    """normal form of a request target for comparison: percent-decoded segments of the path, then the raw rest (params/query/fragment)"""
+    cut = min([p.find(c) for c in "?#" if c in p] or [len(p)])
+    return [_pct(s) for s in p[:cut].split("/")], p[cut:]
+
+
+def _t2_view_edits(b, tier, seed):
+    """edits through the views (MultiDictView on the real getters/setters) against a plain list model"""
+    import itertools
+    ops = [("set", "a", "N"), ("set", "z", "N"), ("add", "a", "M"), ("del", "a"), ("del", "zz"), ("insert0", "b", "I"), ("set_all", "a", ["p", "q"])]
+    starts = [[], [("a", "1")], [("a", "1"), ("b", "2"), ("a", "3")]]
+    for view in ("query", "cookies", "urlencoded_form"):
+        for start in starts:
+            for seq in itertools.product(ops, repeat=2 if tier == "quick" else 3):
+                r = _mkreq(headers=[(b"content-type", b"application/x-www-form-urlencoded")])
+                setattr(r, view, start)
+                model = list(start)
+                hist = []
+                for op in seq:
+                    hist.append(op)
+                    v = getattr(r, view)
+                    try:
+                        if op[0] == "set":
+                            v[op[1]] = op[2]
+                            i = [j for j, (k, _) in enumerate(model) if k == op[1]]
+                            model = [(k, x) for j, (k, x) in enumerate(model) if k != op[1] or j == i[0]] if i else model + [(op[1], op[2])]
+                            model = [(k, op[2]) if (i and j == model.index(next(p for p in model if p[0] == op[1]))) else (k, x) for j, (k, x) in enumerate(model)] if i else model
+                        elif op[0] == "add":
+                            v.add(op[1], op[2])
+                            model = model + [(op[1], op[2])]
+                        elif op[0] == "del":
+                            had = any(k == op[1] for k, _ in model)
+                            try:
+                                del v[op[1]]
+                                raised = False
+                            except KeyError:
+                                raised = True
+                            if raised == had:
+                                b.fail(f"{view}.edit_matches_model", {"start": repr(start), "ops": repr(hist)}, "KeyError mismatch")
+                            model = [(k, x) for k, x in model if k != op[1]]
+                        elif op[0] == "insert0":
+                            v.insert(0, op[1], op[2])
+                            model = [(op[1], op[2])] + model
+                        elif op[0] == "set_all":
+                            v.set_all(op[1], list(op[2]))
+                            new, out, used = list(op[2]), [], 0
+                            for k, x in model:
+                                if k == op[1]:
+                                    if used < len(new):
+                                        out.append((k, new[used]))
+                                        used += 1
+                                else:
+                                    out.append((k, x))
+                            model = out + [(op[1], x) for x in new[used:]]
+                    except Exception as e:
+                        b.fail(f"{view}.edit_matches_model", {"start": repr(start), "ops": repr(hist)}, f"raised {type(e).__name__}: {e}")
+                        break
+                    b.case((view, repr(start), repr(hist)), nontrivial=True)
+                    got = _pairs(getattr(r, view).items(multi=True))
+                    if got != model:
+                        b.fail(f"{view}.edit_matches_model", {"start": repr(start), "ops": repr(hist)}, f"view {got!r}, model {model!r}")
+                        break
+
+
+def bounded(tier, seed):
+    b = Bounded()
+    b.rule = ("per view (query, urlencoded form, request cookies, response cookies, multipart form, path components): (1) assign a list of representable pairs, read the view back "
+              "(same pairs, same order), check the rest of the message and — for the urlencoded formats — that an independent WHATWG form decoder reads the wire text as the same pairs; "
+              "lists: all single pairs over a 25-string alphabet (separators, quotes, '=', ';', ',', CR/LF, NUL, non-ASCII, lone surrogate, empty, %XX, '+', spaces), "
+              "sampled 2- and 3-pair lists; (2) write the current value back on enumerated existing targets/headers/bodies: view and remaining message unchanged, idempotent; "
+              "(3) edit histories <= 2 (thorough 3) through the views against a list model. distinct = (view, input)")
+    b.bound = "strings from a fixed 25-element alphabet (13 byte strings for multipart); lists <= 3; 14 query targets, 11 cookie header sets, 8 form bodies, 4 multipart bodies, 9 paths"
+    b.exhaustive = False
+    _t2_query_and_form(b, tier, seed)
+    _t2_cookies(b, tier, seed)
+    _t2_response_cookies(b, tier, seed)
+    _t2_multipart(b, tier, seed)
+    _t2_path_components(b, tier, seed)
+    _t2_writeback(b, tier, seed)
+    _t2_writeback_object(b, tier, seed)
+    _t2_view_edits(b, tier, seed)
+    return b
+
+
+ASSUMPTIONS = [
+    "representable pairs: urlencoded (query / form body): any str keys and values; Cookie: name without '=' or ';' and without leading whitespace, not both name and value "
+    "empty (RFC 6265 cookie-name is a token; the reader trims names), any value (written as a backslash-escaped quoted-string when it is not made of cookie-octets); "
+    "Set-Cookie attributes: names as cookie names without ',', unquoted Path/Expires values without ';'; multipart: non-empty name without CR/LF (RFC 7578), any value "
+    "that does not contain the boundary line; path components: any str",
+    "T1 bounded(3): the MultiDictView contracts (view[query].*, view[cookies].*) are proved for parents with 0..3 pairs (set_all: 0..2 new values); keys, values and the "
+    "insert index are fully symbolic",
+    "T1: Request._get_query/_set_query resp. _get_cookies/_set_cookies are replaced by a recording store in the MultiDictView scenarios (what is proved is the view plumbing: "
+    "every read goes through the getter, every update hands the complete new pair sequence to the setter exactly once); request.cookies.wiring abstracts the cookie codec",
+    "T1 bounded unrolling: cookies._has_special (strings <= 6 characters), cookies._read_until/_read_key (<= 6 characters scanned), cookies.parse_bare_pair (<= 5 characters "
+    "per token); str.lstrip() is uninterpreted with the fact that strings not starting with str.isspace() characters are unchanged",
+    "T1: the escaping substitution ESCAPE.sub in _format_pairs is an uninterpreted function and _has_special an uninterpreted predicate there (proved separately); that "
+    "_read_quoted_string inverts the escaping, urllib.parse (quote/unquote/urlencode/parse_qsl/urlparse), the multipart regexes/splitlines and mimetypes are library "
+    "behaviour or out of the engine's reach: T2 only",
+    "T2 'meaning' of a message part = what the view reads, cross-checked for the urlencoded formats against an independent WHATWG form decoder and for multipart "
+    "against an RFC 2046 §5.1.1 reader; write-back is performed with the view's pairs (view.items(multi=True)); assigning the view object itself is a separate check (KF-C34-4)",
+]
+EXPLANATION = ("T1 proves the generic view plumbing (MultiDictView over the real Request.query / Request.cookies properties: all reads and all five update operations, whole written "
+               "sequence specified), the wiring of the cookie view to the Cookie headers, and building blocks of the cookie codec (_has_special, _read_until/_read_key, "
+               "_format_pairs structure, parsing of a bare name=value pair) with loops unrolled to a stated bound. Losslessness of each wire format end to end depends on "
+               "urllib.parse, regular expressions and the quoting loops beyond that bound and is established only by the bounded T2 enumeration (which also found the "
+               "recorded findings KF-C34-1..5).")
